@@ -441,7 +441,12 @@ func (ex *Exec) isub(a, b *Term) *Term {
 func (ex *Exec) strSort() Sort { return ex.env.d.Sort("GoString") }
 
 func (ex *Exec) strLenFn() string {
-	ex.env.d.Func("strlen", ex.env.IntS(), ex.strSort())
+	if _, ok := ex.env.d.Funcs["strlen"]; !ok {
+		ex.env.d.Func("strlen", ex.env.IntS(), ex.strSort())
+		x := Sym("s!sl", ex.strSort())
+		l := App("strlen", ex.env.IntS(), x)
+		ex.addAxiom(Forall([]*Term{x}, And(ex.sle(ex.intConst(0), l), ex.sle(l, ex.intConst(maxSliceLen))), []*Term{l}))
+	}
 	return "strlen"
 }
 
